@@ -91,10 +91,30 @@ def _local_projection():
 LocalProjection = _local_projection()   # qualname '_local_projection.<locals>.Projection'
 
 
+class MaskedLinear(nn.Linear):
+    """a supported type with an EXTRA parameter besides weight and bias (a mask / scale); frozen or trainable"""
+
+    def __init__(self, i, o, frozen_extra):
+        super().__init__(i, o)
+        self.mask = nn.Parameter(torch.ones(o), requires_grad=not frozen_extra)
+
+    def forward(self, x):
+        return super().forward(x) * self.mask
+
+
+class ScaledConv2d(nn.Conv2d):
+    def __init__(self, i, o, k, frozen_extra):
+        super().__init__(i, o, k)
+        self.scale = nn.Parameter(torch.ones(1), requires_grad=not frozen_extra)
+
+    def forward(self, x):
+        return super().forward(x) * self.scale
+
+
 def random_tree(rng, depth=0, pool=None):
     pool = pool if pool is not None else []
     kinds = ['linear', 'linear_nobias', 'conv', 'mylinear', 'myconv', 'bn', 'ln', 'emb', 'relu', 'bilinear', 'mha',
-             'frozen', 'partfrozen', 'shared', 'tied', 'nested', 'wrapchild', 'container', 'container', 'modulelist', 'moduledict', 'identity', 'conv1d', 'fakelinear', 'fakeconv']
+             'frozen', 'partfrozen', 'shared', 'tied', 'nested', 'extraparam', 'wrapchild', 'container', 'container', 'modulelist', 'moduledict', 'identity', 'conv1d', 'fakelinear', 'fakeconv']
 
     def leaf(kind):
         if kind == 'linear':
@@ -134,6 +154,9 @@ def random_tree(rng, depth=0, pool=None):
             return m
         if kind == 'wrapchild':
             return LinearWithChild(2, 3)
+        if kind == 'extraparam':
+            fr = rng.random() < 0.6
+            return MaskedLinear(2, 3, fr) if rng.random() < 0.6 else ScaledConv2d(1, 2, 2, fr)
         if kind == 'nested':
             return rng.choice([lambda: Net.Head(2, 3), lambda: Net.Stem(1, 2, 2), lambda: LocalProjection(3, 2)])()
         if kind == 'fakelinear':
